@@ -34,7 +34,7 @@ def obligations(tier):
         Ob('T4r', 'E', 'restore under download completion orders/latencies and concurrency 1/2/4 equals the sequential result; in-flight <= N; slots restored',
            '3 concurrency x 6 latency patterns x 5 file sets x encrypted/not = 180', [F['dc'], 'replicat.repository:Repository.restore', 'replicat.repository:Repository._acquire_slot_threadsafe'],
            module=H, func='t4_restore', timeout=600),
-        Ob('T5', 'E', 'snapshot under producer/worker interleavings and completion orders equals the sequential run; no snapshot after a failed upload',
-           '3 concurrency x 12 producer patterns x 5 file sets x 5 latency patterns x fault/no fault = 1800', [F['sn'], F['wk'], F['cp']], module=H,
+        Ob('T5', 'E', 'snapshot under producer/worker interleavings and completion orders equals the sequential run; after a failed upload, an upload ending in CancelledError, or cancellation of the command by its caller: no hang, producer finished, slots back, no snapshot',
+           '3 concurrency x 12 producer patterns x 6 file sets x 5 latency patterns x 4 outcomes (ok / backend error / CancelledError / caller cancels) = 4320', [F['sn'], F['wk'], F['cp']], module=H,
            func='t5_snapshot', timeout=1200, shards=8),
     ]
